@@ -575,6 +575,33 @@ func coreBody(c ccfg) func() {
 					return
 				}
 				setTarget(ci)
+			case "sendfile":
+				// a file range queued behind a backlog: nbio dups the file descriptor and owes its close
+				ci := w.newStream("add", 3)
+				if _, err := g.AddConn(ci.c); err != nil {
+					w.fail("harness|AddConn: %v", err)
+					return
+				}
+				if n, err := ci.c.Write(make([]byte, 5)); n != 5 || err != nil {
+					w.fail("harness|Write = %d, %v", n, err)
+					return
+				}
+				if n, err := ci.c.Sendfile(ekit.OpenDataFile(3, 8, 0), 0); n != 8 || err != nil {
+					w.fail("harness|Sendfile = %d, %v", n, err)
+					return
+				}
+				dups := 0
+				for _, s := range vsys.OpenFDs() {
+					if strings.HasSuffix(s, ":realdup") {
+						dups++
+					}
+				}
+				if dups != 1 {
+					w.fail("harness|history: expected one dup'ed file descriptor, have %v", vsys.OpenFDs())
+					return
+				}
+				v.counters["dup_fd_at_stop"]++
+				setTarget(ci)
 			case "deadline":
 				ci := w.newStream("add", 64)
 				if _, err := g.AddConn(ci.c); err != nil {
@@ -891,6 +918,13 @@ func httpBody(c hcfg) func() {
 				target = ci
 			}
 			switch ev {
+			case "transfer":
+				// a connection transferred from elsewhere (as the websocket upgrade does)
+				ci.c.OnData(func(cc *nbio.Conn, data []byte) { w.dataCalls++; w.tick(13) })
+				if err := e.AddTransferredConn(ci.c); err != nil {
+					w.fail("harness|AddTransferredConn: %v", err)
+					return
+				}
 			case "inject", "request", "partial":
 				e.AddConnNonTLSNonBlocking(&nbhttp.Conn{Conn: ci.c}, nil, func() {})
 			case "accept":
@@ -1161,9 +1195,10 @@ var (
 		{h("dialto"), "none", 0}, {h("dialto"), "resolve", 0}, {h("dialto"), "fire", 0},
 		{h("dialok"), "none", 0}, {h("dialok"), "close", 0}, {h("dialok"), "fin", 0}, {h("dialok"), "data", 0},
 		{h("udp"), "none", 0}, {h("udp"), "udpdata", 0},
+		{h("sendfile"), "none", 0}, {h("sendfile"), "close", 0}, {h("sendfile"), "fin", 0},
 	}
 	extraSingles = []ccase{{h("add"), "blocked-race", 0}, {h("accept"), "blocked-race", 1}, {h("dialok"), "blocked", 0}, {h("backlog"), "blocked-race", 0}}
-	doubles = []ccase{
+	doubles      = []ccase{
 		{h("accept", "accept"), "none", 2}, {h("accept", "accept"), "accept", 2}, {h("accept", "add"), "accept", 1}, {h("accept", "add"), "fin", 1},
 		{h("add", "add"), "close", 0}, {h("add", "add"), "none", 0}, {h("backlog", "deadline"), "fire", 0}, {h("backlog", "deadline"), "none", 0},
 		{h("dialpend", "accept"), "resolve", 1}, {h("dialpend", "accept"), "accept", 1}, {h("udp", "add"), "udpdata", 0}, {h("udp", "add"), "fin", 0},
@@ -1188,6 +1223,7 @@ var (
 		{h("accept"), "none", true}, {h("accept"), "request", true}, {h("accept"), "close", true},
 		{h("request"), "none", false}, {h("request"), "request", false}, {h("request"), "fin", false}, {h("request"), "blocked", false},
 		{h("partial"), "none", false}, {h("partial"), "fin", false}, {h("partial"), "request", false},
+		{h("transfer"), "none", false}, {h("transfer"), "fin", false}, {h("transfer"), "close", false},
 	}
 	// two HTTP connections: only with plain Stop (Shutdown ranges over the connection map)
 	hdoubles = []hcase{
@@ -1295,7 +1331,7 @@ func main() {
 	defer ekit.CleanupFiles()
 	vkit.Main(&vkit.Spec{
 		Property: "C18", Level: "model_checking",
-		Rule: "one scenario = engine (core nbio.Engine / nbhttp.Engine) x configuration (epoll mode LT/ET/ONESHOT, NPoller 1-2, 0-2 fake listeners, sync read or async read with pool / goroutine-per-task / inline executor; HTTP: pool / inline handler executor, IOModNonBlocking / IOModMixed) x settled history of 0-3 events (accepted connection, AddConn, write backlog, read deadline, pending / timed / connected async dial, UDP listener with a session; HTTP: injected or accepted connection, handled request, partial request) x one activity racing with the stopping call (listener hands out one more connection, user Close, peer FIN, peer data / request, callback parked on a latch, dial resolving, deadline firing, AddConn / DialAsync / Write by the user, datagram of a new remote) x stopping call (Stop, Shutdown(Background), Shutdown(live cancel ctx)); every interleaving within the preemption bound; non-trivial = the stopping call was started",
+		Rule: "one scenario = engine (core nbio.Engine / nbhttp.Engine) x configuration (epoll mode LT/ET/ONESHOT, NPoller 1-2, 0-2 fake listeners, sync read or async read with pool / goroutine-per-task / inline executor; HTTP: pool / inline handler executor, IOModNonBlocking / IOModMixed) x settled history of 0-3 events (accepted connection, AddConn, write backlog, queued Sendfile range with dup'ed descriptor, read deadline, pending / timed / connected async dial, UDP listener with a session; HTTP: injected, accepted or transferred connection, handled request, partial request) x one activity racing with the stopping call (listener hands out one more connection, user Close, peer FIN, peer data / request, callback parked on a latch, dial resolving, deadline firing, AddConn / DialAsync / Write by the user, datagram of a new remote) x stopping call (Stop, Shutdown(Background), Shutdown(live cancel ctx)); every interleaving within the preemption bound; non-trivial = the stopping call was started",
 		Assumptions: []string{
 			"a connection that a listener's Accept returned before listener.Close() was called is the engine's to close; the fake listener never hands out a connection after Close (what stays queued is the harness's own)",
 			"'close notification delivered before Stop returns' is judged per connection that got an open notification (OnOpen or a dial callback with nil error), counted when the close callback is entered; applied to the core engine only, as the statement says",
